@@ -1,6 +1,903 @@
-//! C16 — harness module not built yet.
+//! C16 — ETH airdrop: only the key holder claims, bound to one wallet, within limits.
+//! Drives the real sg-eth-airdrop (+ whitelist-immutable, vending minter, sg-whitelist)
+//! through histories of ClaimAirdrop calls, records the observations and the answers of
+//! the independent verifier (w_airdrop.rs) as Coq terms for the model comparison, and
+//! evaluates the property sentence directly as monitors.
+use crate::util::*;
+use crate::w_airdrop::*;
 use crate::Args;
-pub fn run(_a: &Args) {
-    eprintln!("C16: harness module not built yet");
-    std::process::exit(2);
+use serde::{Deserialize, Serialize};
+use std::collections::{BTreeMap, BTreeSet};
+
+#[derive(Clone, Debug, Serialize, Deserialize, PartialEq, Eq)]
+pub struct ClaimOp {
+    pub sender: String,
+    pub eth_address: String,
+    pub eth_sig: String,
+    /// generator label (histogram only)
+    pub tag: String,
+}
+#[derive(Clone, Debug, Serialize, Deserialize, PartialEq, Eq)]
+pub struct Case {
+    pub label: String,
+    pub spec: WorldSpec,
+    pub ops: Vec<ClaimOp>,
+}
+
+// ---------- documented numbers (property text / contract docs), used by monitors only
+const DOC_MIN_AIRDROP: u128 = 10_000_000; // 10 STARS
+const DOC_MAX_AIRDROP: u128 = 100_000_000_000_000; // 100 million STARS
+const DOC_INSTANTIATION_FEE: u128 = 100_000_000; // 100 STARS
+const DOC_MAX_PLAINTEXT: usize = 1000;
+
+/// a byte string as the Coq term `(P len [chunks])`: seven bytes per primitive integer
+fn coq_bytes(b: &[u8]) -> String {
+    let mut s = format!("(P {} [", b.len());
+    for (i, ch) in b.chunks(7).enumerate() {
+        let mut v: u64 = 0;
+        for k in 0..7 {
+            v = (v << 8) | *ch.get(k).unwrap_or(&0) as u64;
+        }
+        if i > 0 {
+            s.push_str("; ");
+        }
+        s.push_str(&v.to_string());
+    }
+    s.push_str("]%uint63)");
+    s
+}
+fn coq_obytes(b: &Option<Vec<u8>>) -> String {
+    match b {
+        Some(v) => format!("(Some {})", coq_bytes(v)),
+        None => "None".into(),
+    }
+}
+fn coq_obool(b: Option<bool>) -> String {
+    match b {
+        Some(v) => format!("(Some {})", coq_bool(v)),
+        None => "None".into(),
+    }
+}
+
+/// the Ethereum address a string denotes, if it is 0x + 40 hex digits (any case)
+fn eth_identity(s: &str) -> Option<Vec<u8>> {
+    if s.len() == 42 && s.starts_with("0x") {
+        ind_hex_decode(&s[2..])
+    } else {
+        None
+    }
+}
+
+#[derive(Default)]
+pub struct Outcome {
+    /// vernacular: one `Definition <name>_s<i> : c16_step := ...` per call (a single huge
+    /// term makes the elaborator's evar map grow quadratically)
+    pub defs: Vec<String>,
+    pub coq: String,
+    pub built: bool,
+    pub steps: u64,
+    /// (key, what)
+    pub violations: Vec<(String, String)>,
+    /// per step: tag, ok, reached signature check
+    pub step_info: Vec<(String, bool, bool)>,
+    /// per step: (packages/ethereum-verify accepts, independent verifier accepts)
+    pub crosscheck: Vec<(bool, bool)>,
+    pub sample: Option<serde_json::Value>,
+}
+
+pub fn run_case(case: &Case, name: &str) -> Outcome {
+    let spec = &case.spec;
+    let mut out = Outcome::default();
+    let built = build(spec);
+    let funds_coq = if spec.inst_funds == 0 { "[]".to_string() } else { format!("[mkCoin 0 {}]", spec.inst_funds) };
+    let head = |built: bool, bal0: u128, num0: u32| {
+        format!(
+            "CWorld {} {} {} {} {} {} {} {} {} {} {} {} {}",
+            funds_coq,
+            coq_bytes(spec.template.as_bytes()),
+            spec.airdrop_amount,
+            coq_list(&spec.list.iter().map(|a| coq_bytes(a.as_bytes())).collect::<Vec<_>>()),
+            spec.per_address_limit,
+            spec.top_up,
+            coq_bool(spec.minter_has_whitelist),
+            coq_bool(spec.airdrop_is_wl_admin),
+            coq_list(&spec.cwl_initial_members.iter().map(|a| coq_bytes(a.as_bytes())).collect::<Vec<_>>()),
+            num0,
+            spec.cwl_member_limit,
+            coq_bool(built),
+            bal0
+        )
+    };
+    // ---- instantiate validations (documented bounds)
+    let inst_should_fail = spec.airdrop_amount < DOC_MIN_AIRDROP
+        || spec.airdrop_amount > DOC_MAX_AIRDROP
+        || !spec.template.contains("{wallet}")
+        || spec.template.len() > DOC_MAX_PLAINTEXT
+        || spec.inst_funds < DOC_INSTANTIATION_FEE;
+    let mut w = match built {
+        Built::AirdropRejected { creator_paid, err } => {
+            if err.contains(SIGNER_MISMATCH) {
+                // defect repaired by /repo commit d25169f; listed as fixed under C06
+                out.violations.push(("C06:airdrop-fundpool-sender".into(), format!("airdrop instantiate rejected by the chain: {}", err.lines().last().unwrap_or(""))));
+            }
+            if creator_paid != 0 {
+                out.violations.push(("C16:rejected-instantiate-charged".into(), format!("rejected instantiate cost the creator {}", creator_paid)));
+            }
+            out.coq = format!("{} [] []", head(false, 0, 0));
+            out.steps = 1;
+            return out;
+        }
+        Built::Ok(w) => w,
+    };
+    out.built = true;
+    if inst_should_fail {
+        out.violations.push((
+            "C16:instantiate-accepted-invalid".into(),
+            format!(
+                "instantiate accepted amount {} / template of {} bytes (has {{wallet}}: {}) / funds {}",
+                spec.airdrop_amount,
+                spec.template.len(),
+                spec.template.contains("{wallet}"),
+                spec.inst_funds
+            ),
+        ));
+    }
+    let bal0 = w.airdrop_balance();
+    // fee: exactly 100 STARS leave the contract whatever was attached, half burned, half to the pool
+    if bal0 != spec.inst_funds - DOC_INSTANTIATION_FEE.min(spec.inst_funds) + spec.top_up
+        || w.fee_burned != DOC_INSTANTIATION_FEE / 2
+        || w.fee_burned + w.fee_pooled != DOC_INSTANTIATION_FEE
+    {
+        out.violations.push((
+            "C16:instantiate-fee".into(),
+            format!("attached {} (+{} top-up), contract holds {}, burned {}, pooled {}", spec.inst_funds, spec.top_up, bal0, w.fee_burned, w.fee_pooled),
+        ));
+    }
+    let num0 = w.wl_num_members();
+    let mut steps_coq: Vec<String> = vec![];
+    // monitor state
+    let mut successes: BTreeMap<Vec<u8>, u64> = BTreeMap::new(); // per Ethereum address (20 bytes)
+    let mut successes_str: BTreeMap<String, u64> = BTreeMap::new(); // per exact string
+    let mut total_paid: u128 = 0;
+    let mut senders: BTreeSet<String> = BTreeSet::new();
+    for (i, op) in case.ops.iter().enumerate() {
+        senders.insert(op.sender.clone());
+        // ---- independent oracle answers for this call
+        let text = spec.template.replace("{wallet}", &op.sender);
+        let pre = ind_eth_preimage(&text);
+        let hash = ind_keccak(&pre);
+        let o_sig = ind_hex_decode(&op.eth_sig);
+        let ab = op.eth_address.as_bytes();
+        let o_addr = ind_hex_decode_bytes(&ab[ab.len().min(2)..]);
+        let rs: Option<Vec<u8>> = o_sig.as_ref().filter(|s| !s.is_empty()).map(|s| s[..s.len() - 1].to_vec());
+        let (rec0, rec1) = match &rs {
+            Some(rs) if rs.len() == 64 => (ind_recover(&hash, rs, 0), ind_recover(&hash, rs, 1)),
+            _ => (None, None),
+        };
+        let a0 = rec0.as_ref().and_then(|p| ind_address_of(p)).map(|a| a.to_vec());
+        let a1 = rec1.as_ref().and_then(|p| ind_address_of(p)).map(|a| a.to_vec());
+        let v0 = rec0.as_ref().and_then(|p| ind_verify(&hash, rs.as_ref().unwrap(), p));
+        let v1 = rec1.as_ref().and_then(|p| ind_verify(&hash, rs.as_ref().unwrap(), p));
+        let ind_valid = ind_valid_personal_sign(&op.eth_address, &text, &op.eth_sig);
+        // the repo's verifier called directly on the same data (diagnostic; the verdicts
+        // come from the monitors and from the model comparison)
+        let repo_valid = match &o_sig {
+            Some(sig) => {
+                let deps = cosmwasm_std::testing::mock_dependencies();
+                matches!(catch(|| ethereum_verify::verify_ethereum_text(deps.as_ref(), &text, sig, &op.eth_address)), Ok(Ok(true)))
+            }
+            None => false,
+        };
+        out.crosscheck.push((repo_valid, ind_valid));
+
+        // ---- the call
+        let before_sender = w.balance(&op.sender);
+        let before_air = w.airdrop_balance();
+        let before_dig = w.digests();
+        let before_counts = w.raw_counts();
+        let before_member = w.has_member(&op.sender);
+        let r = w.claim(&op.sender, &op.eth_address, &op.eth_sig);
+        let ok = r.is_ok();
+        let after_sender = w.balance(&op.sender);
+        let after_air = w.airdrop_balance();
+        let elig = w.eligible(&op.eth_address).unwrap_or(false);
+        let member = w.has_member(&op.sender).unwrap_or(false);
+        let count = w.raw_count(&op.eth_address);
+        let nm = w.wl_num_members();
+        out.steps += 1;
+        let reached_sig = spec.list.contains(&op.eth_address) && o_sig.as_ref().map(|s| s.len() == 65).unwrap_or(false);
+        out.step_info.push((op.tag.clone(), ok, reached_sig));
+
+        // ---- monitors (the property sentence; nothing shared with the model)
+        let ident = eth_identity(&op.eth_address);
+        let on_list = match &ident {
+            Some(id) => spec.list.iter().any(|l| eth_identity(l).as_ref() == Some(id)),
+            None => false,
+        };
+        let mut viol = |key: &str, what: String| out.violations.push((key.to_string(), format!("step {} ({}): {}", i, op.tag, what)));
+        if ok {
+            if !on_list {
+                viol("C16:claim-without-eligibility", format!("claim for {} succeeded, the address is not on the list", op.eth_address));
+            }
+            if !ind_valid {
+                viol(
+                    "C16:accepted-invalid-signature",
+                    format!("claim succeeded although the independent verifier rejects the signature for ({}, text with sender {})", op.eth_address, op.sender),
+                );
+            }
+            if after_sender != before_sender + spec.airdrop_amount || after_air + spec.airdrop_amount != before_air {
+                viol(
+                    "C16:payout-mismatch",
+                    format!("airdrop amount {}, claimant {} -> {}, contract {} -> {}", spec.airdrop_amount, before_sender, after_sender, before_air, after_air),
+                );
+            }
+            if !member {
+                viol("C16:claimant-not-whitelisted", format!("successful claim, HasMember({}) is false", op.sender));
+            }
+            total_paid += spec.airdrop_amount;
+            *successes_str.entry(op.eth_address.clone()).or_insert(0) += 1;
+            if let Some(id) = ident.clone() {
+                let n = successes.entry(id).or_insert(0);
+                *n += 1;
+                if *n > spec.per_address_limit as u64 {
+                    let by_string = successes_str[&op.eth_address] > spec.per_address_limit as u64;
+                    // the known shape, exactly: the list itself holds this address under several
+                    // spellings and every successful spelling is one of those list entries
+                    let spellings_on_list = spec.list.iter().filter(|l| eth_identity(l) == ident).collect::<BTreeSet<_>>();
+                    let all_listed = successes_str.keys().filter(|s| eth_identity(s) == ident).all(|s| spec.list.contains(s));
+                    if by_string || spellings_on_list.len() < 2 || !all_listed {
+                        viol("C16:limit-exceeded", format!("{} claimed {} times, limit {}", op.eth_address, *n, spec.per_address_limit));
+                    } else {
+                        viol(
+                            "C16:limit-exceeded-by-case-variants",
+                            format!("Ethereum address {} claimed {} times through differently capitalised spellings on the list, limit {}", op.eth_address.to_lowercase(), *n, spec.per_address_limit),
+                        );
+                    }
+                }
+            }
+        } else {
+            let after_dig = w.digests();
+            if after_sender != before_sender || after_air != before_air || after_dig != before_dig || w.raw_counts() != before_counts || w.has_member(&op.sender) != before_member {
+                viol("C16:failed-claim-changed-state", format!("failed claim: claimant {} -> {}, contract {} -> {}, storage changed: {}", before_sender, after_sender, before_air, after_air, after_dig != before_dig));
+            }
+        }
+        if out.sample.is_none() && i == case.ops.len() / 2 {
+            out.sample = Some(serde_json::json!({"world": case.label, "op": op, "impl_ok": ok, "independent_verifier_accepts": ind_valid,
+                "claimant_balance": after_sender.to_string(), "contract_balance": after_air.to_string(), "whitelisted": member, "raw_count": count}));
+        }
+        out.defs.push(format!(
+            "Definition {}_s{} : c16_step := Claim {} {} {} (mkOracle {} {} {} {} {} {} {} {} {} {}) {} {} {} {} {} {} {}.",
+            name,
+            i,
+            coq_bytes(op.sender.as_bytes()),
+            coq_bytes(op.eth_address.as_bytes()),
+            coq_bytes(op.eth_sig.as_bytes()),
+            coq_obytes(&o_sig),
+            coq_obytes(&o_addr),
+            coq_bytes(&pre),
+            coq_bytes(&hash),
+            coq_obytes(&rec0),
+            coq_obytes(&rec1),
+            coq_obytes(&a0),
+            coq_obytes(&a1),
+            coq_obool(v0),
+            coq_obool(v1),
+            coq_bool(ok),
+            after_sender,
+            after_air,
+            coq_bool(elig),
+            coq_bool(member),
+            match count {
+                Some(c) => format!("(Some {})", c),
+                None => "None".into(),
+            },
+            nm
+        ));
+        steps_coq.push(format!("{}_s{}", name, i));
+    }
+    // total-paid accounting
+    let held: u128 = senders.iter().map(|s| w.balance(s)).sum();
+    if held != total_paid || bal0 - w.airdrop_balance() != total_paid {
+        out.violations.push(("C16:total-paid".into(), format!("{} successful claims worth {}, claimants hold {}, contract paid out {}", total_paid / spec.airdrop_amount.max(1), total_paid, held, bal0 - w.airdrop_balance())));
+    }
+    let finals = w.raw_counts();
+    out.coq = format!(
+        "{} {} {}",
+        head(true, bal0, num0),
+        coq_list(&steps_coq),
+        coq_list(&finals.iter().map(|(k, v)| format!("({}, {})", coq_bytes(k.as_bytes()), v)).collect::<Vec<_>>())
+    );
+    out
+}
+
+// ---------------------------------------------------------------------------------
+// generators
+// ---------------------------------------------------------------------------------
+
+const TEMPLATES: &[&str] = &[
+    "My Stargaze address is {wallet} and I want a Winter Pal.",
+    "{wallet}",
+    "{wallet} claims; again: {wallet}",
+    "x{wallet}{wallet}y",
+    "{{wallet}}",
+    "{wallet{wallet}}",
+    "{wallet {wallet}",
+    "J'adresse \u{e9}t\u{e9} {wallet} \u{1F680} fin",
+    "line one\nline two {wallet}\n",
+];
+const WALLETS: &[&str] = &["stars1claimant", "stars1qqqqqqqqqqqqqqqqqqqqqqqqqqqqqqqqqqqqqq", "stars1other", "abc", "stars1claimanu"];
+
+struct Keys {
+    k: Vec<EthKey>,
+}
+impl Keys {
+    fn new(seed: u64, n: u64) -> Self {
+        Keys { k: (0..n).map(|i| eth_key(seed, i)).collect() }
+    }
+}
+
+fn text_for(spec: &WorldSpec, sender: &str) -> String {
+    spec.template.replace("{wallet}", sender)
+}
+fn valid_sig(spec: &WorldSpec, k: &EthKey, sender: &str) -> [u8; 65] {
+    personal_sign(k, &text_for(spec, sender))
+}
+fn op(sender: &str, addr: &str, sig: &str, tag: &str) -> ClaimOp {
+    ClaimOp { sender: sender.into(), eth_address: addr.into(), eth_sig: sig.into(), tag: tag.into() }
+}
+/// (r, n - s, v with flipped parity): the other ECDSA signature of the same message
+fn malleate(sig: &[u8; 65]) -> [u8; 65] {
+    use ethers_core::k256::elliptic_curve::PrimeField;
+    use ethers_core::k256::{FieldBytes, Scalar};
+    let s: Option<Scalar> = Scalar::from_repr(FieldBytes::clone_from_slice(&sig[32..64])).into();
+    let ns = -s.unwrap();
+    let mut o = *sig;
+    o[32..64].copy_from_slice(&ns.to_bytes());
+    o[64] = match sig[64] {
+        27 => 28,
+        28 => 27,
+        0 => 1,
+        _ => 0,
+    };
+    o
+}
+fn upper_addr(a: &str) -> String {
+    format!("0x{}", a[2..].to_uppercase())
+}
+fn mixed_addr(a: &str) -> String {
+    let mut s = String::from("0x");
+    for (i, c) in a[2..].chars().enumerate() {
+        s.push(if i % 2 == 0 { c.to_ascii_uppercase() } else { c });
+    }
+    s
+}
+
+fn gen_cases(a: &Args) -> Vec<Case> {
+    let mut rng = Rng::new(a.seed);
+    let keys = Keys::new(a.seed, 6);
+    let k = &keys.k;
+    let thorough = a.thorough();
+    let mut cases: Vec<Case> = vec![];
+    let lower = |i: usize| k[i].addr_lower.clone();
+    let w0 = WALLETS[0];
+    let w1 = WALLETS[1];
+    let w2 = WALLETS[2];
+
+    // ---------------- 1. corpus
+    {
+        // the repo's own scenario and its immediate neighbours, limit 1
+        let spec = WorldSpec::basic(vec![lower(0), lower(1)], 1);
+        let s00 = hex::encode(valid_sig(&spec, &k[0], w0));
+        let s01 = hex::encode(valid_sig(&spec, &k[0], w1));
+        let s10 = hex::encode(valid_sig(&spec, &k[1], w0));
+        let s30 = hex::encode(valid_sig(&spec, &k[3], w0));
+        cases.push(Case {
+            label: "corpus:limit1".into(),
+            spec: spec.clone(),
+            ops: vec![
+                op(w1, &lower(0), &s00, "replay-other-wallet"), // signature made for w0, presented by w1
+                op(w0, &lower(0), &s30, "other-key"),           // k3 signed, claims k0's address
+                op(w0, &lower(3), &s30, "not-eligible"),        // k3's own valid signature, not on the list
+                op(w0, &lower(1), &s00, "other-address"),       // k0's signature presented for k1's address
+                op(w0, &lower(0), &s00, "valid"),
+                op(w0, &lower(0), &s00, "valid-again"),         // past the limit
+                op(w1, &lower(0), &s01, "valid-other-wallet-past-limit"),
+                op(w0, &lower(1), &s10, "valid-second-address-same-wallet"), // same wallet, already whitelisted
+                op(w1, &lower(1), &s10, "replay-other-wallet"),
+            ],
+        });
+        // signatures by the right key over the wrong text: the bare template, the text with
+        // the Ethereum address / nothing / another wallet spliced in, a neighbouring text
+        let spec2 = WorldSpec::basic(vec![lower(0), lower(1)], 3);
+        let mut ops = vec![];
+        for (text, tag) in [
+            (spec2.template.clone(), "sig-over-bare-template"),
+            (spec2.template.replace("{wallet}", &lower(0)), "sig-over-text-with-eth-address"),
+            (spec2.template.replace("{wallet}", ""), "sig-over-text-without-wallet"),
+            (spec2.template.replace("{wallet}", w1), "replay-other-wallet"),
+            (format!("{} ", text_for(&spec2, w0)), "sig-over-neighbouring-text"),
+            (text_for(&spec2, w0).to_uppercase(), "sig-over-neighbouring-text"),
+            (text_for(&spec2, w0)[1..].to_string(), "sig-over-neighbouring-text"),
+            ("".to_string(), "sig-over-empty-text"),
+        ] {
+            ops.push(op(w0, &lower(0), &hex::encode(personal_sign(&k[0], &text)), tag));
+        }
+        // a raw (not personal-sign prefixed) signature over keccak(text)
+        {
+            let h = ind_keccak(text_for(&spec2, w0).as_bytes());
+            let sig = k[0].wallet.sign_hash(ethers_core::types::H256::from(h));
+            ops.push(op(w0, &lower(0), &hex::encode(sig.to_vec()), "sig-without-eth-prefix"));
+        }
+        ops.push(op(w0, &lower(0), &hex::encode(valid_sig(&spec2, &k[0], w0)), "valid"));
+        cases.push(Case { label: "corpus:wrong-text".into(), spec: spec2, ops });
+        for limit in [0u32, 2, 3] {
+            let mut spec = WorldSpec::basic(vec![lower(0), lower(1), lower(2)], limit);
+            spec.template = TEMPLATES[2].into();
+            let mut ops = vec![];
+            for round in 0..(limit + 2) {
+                for (ki, w) in [(0usize, w0), (1, w1), (2, w2), (0, w2)] {
+                    let s = hex::encode(valid_sig(&spec, &k[ki], w));
+                    ops.push(op(w, &lower(ki), &s, if round < limit { "valid" } else { "valid-past-limit" }));
+                }
+            }
+            cases.push(Case { label: format!("corpus:limit{}", limit), spec, ops });
+        }
+    }
+    {
+        // eligibility is a string match: spellings of the same address
+        let up = upper_addr(&lower(0));
+        let mx = mixed_addr(&lower(1));
+        let spec = WorldSpec::basic(vec![up.clone(), lower(1), lower(2)], 1);
+        let s0 = hex::encode(valid_sig(&spec, &k[0], w0));
+        let s1 = hex::encode(valid_sig(&spec, &k[1], w1));
+        let s2 = hex::encode(valid_sig(&spec, &k[2], w2));
+        cases.push(Case {
+            label: "corpus:spellings".into(),
+            spec,
+            ops: vec![
+                op(w0, &lower(0), &s0, "addr-lower-list-upper"),
+                op(w0, &up, &s0, "addr-upper-as-listed"),
+                op(w0, &up, &s0, "addr-upper-as-listed-again"),
+                op(w1, &mx, &s1, "addr-mixed-list-lower"),
+                op(w1, &upper_addr(&lower(1)), &s1, "addr-upper-list-lower"),
+                op(w1, &lower(1), &s1, "valid"),
+                op(w2, &lower(2)[2..].to_string(), &s2, "addr-no-0x"),
+                op(w2, &format!("0X{}", &lower(2)[2..]), &s2, "addr-0X"),
+                op(w2, &format!("{}0", lower(2)), &s2, "addr-43"),
+                op(w2, &lower(2)[..41].to_string(), &s2, "addr-41"),
+                op(w2, &format!("0x{}zz", &lower(2)[2..40]), &s2, "addr-nonhex"),
+                op(w2, "", &s2, "addr-empty"),
+                op(w2, &lower(2), &s2, "valid"),
+            ],
+        });
+        // malformed strings that ARE on the list: eligibility passes, decoding must still refuse
+        let bad = vec![lower(2)[2..].to_string(), format!("0X{}", &lower(2)[2..]), format!("{}0", lower(2)), lower(2)[..41].to_string(), format!("0x{}zz", &lower(2)[2..40]), "".to_string(), "0x".to_string(), format!("0x{}\u{e9}", &lower(2)[2..40])];
+        let spec = WorldSpec::basic(bad.clone(), 2);
+        let s2 = hex::encode(valid_sig(&spec, &k[2], w2));
+        cases.push(Case { label: "corpus:malformed-on-list".into(), spec, ops: bad.iter().map(|b| op(w2, b, &s2, "addr-malformed-listed")).collect() });
+    }
+    {
+        // one Ethereum address listed under two spellings (candidate finding: each spelling has its own counter)
+        let up = upper_addr(&lower(0));
+        let spec = WorldSpec::basic(vec![lower(0), up.clone()], 1);
+        let s0 = hex::encode(valid_sig(&spec, &k[0], w0));
+        cases.push(Case {
+            label: "corpus:two-spellings-listed".into(),
+            spec,
+            ops: vec![op(w0, &lower(0), &s0, "valid"), op(w0, &up, &s0, "valid-second-spelling"), op(w0, &up, &s0, "valid-past-limit")],
+        });
+    }
+    {
+        // surroundings: balance, admin, minter whitelist, member limit
+        for (label, f) in [
+            ("corpus:balance-short", Box::new(|s: &mut WorldSpec| s.inst_funds = 100_000_000 + s.airdrop_amount - 1) as Box<dyn Fn(&mut WorldSpec)>),
+            ("corpus:balance-exact", Box::new(|s: &mut WorldSpec| s.inst_funds = 100_000_000 + s.airdrop_amount)),
+            ("corpus:balance-plus1-topup", Box::new(|s: &mut WorldSpec| {
+                s.inst_funds = 100_000_000;
+                s.top_up = s.airdrop_amount + 1
+            })),
+            ("corpus:not-admin", Box::new(|s: &mut WorldSpec| s.airdrop_is_wl_admin = false)),
+            ("corpus:minter-no-whitelist", Box::new(|s: &mut WorldSpec| s.minter_has_whitelist = false)),
+            ("corpus:member-limit-1", Box::new(|s: &mut WorldSpec| s.cwl_member_limit = 1)),
+            ("corpus:member-limit-2-one-present", Box::new(|s: &mut WorldSpec| {
+                s.cwl_member_limit = 2;
+                s.cwl_initial_members = vec![WALLETS[2].to_string()]
+            })),
+            ("corpus:already-member", Box::new(|s: &mut WorldSpec| s.cwl_initial_members = vec![WALLETS[0].to_string()])),
+        ] {
+            let mut spec = WorldSpec::basic(vec![lower(0), lower(1), lower(2)], 2);
+            f(&mut spec);
+            let mut ops = vec![];
+            for (ki, w) in [(0usize, w0), (1, w1), (2, w2), (0, w0)] {
+                ops.push(op(w, &lower(ki), &hex::encode(valid_sig(&spec, &k[ki], w)), "valid"));
+            }
+            cases.push(Case { label: label.into(), spec, ops });
+        }
+    }
+
+    // ---------------- 2. guard-boundary probes
+    // 2a. instantiate: amount, fee, template
+    {
+        let mut lits: Vec<u128> = harvest_literals(&["contracts/sg-eth-airdrop/src/contract.rs"]);
+        lits.extend([DOC_MIN_AIRDROP, DOC_MAX_AIRDROP, DOC_INSTANTIATION_FEE]);
+        let mut amounts = BTreeSet::new();
+        for l in &lits {
+            for d in [l.saturating_sub(1), *l, l + 1] {
+                amounts.insert(d);
+            }
+        }
+        amounts.insert(u128::MAX);
+        amounts.insert(0);
+        for amt in amounts {
+            let mut spec = WorldSpec::basic(vec![lower(0)], 1);
+            spec.airdrop_amount = amt;
+            spec.inst_funds = 100_000_000;
+            spec.top_up = amt.min(DOC_MAX_AIRDROP + 5).saturating_mul(2);
+            let s = hex::encode(valid_sig(&spec, &k[0], w0));
+            cases.push(Case { label: format!("inst:amount-{}", amt), spec, ops: vec![op(w0, &lower(0), &s, "valid")] });
+        }
+        for funds in [0u128, 1, 99_999_999, 100_000_000, 100_000_001, 100_000_000 + 66_000_000] {
+            let mut spec = WorldSpec::basic(vec![lower(0)], 1);
+            spec.inst_funds = funds;
+            let s = hex::encode(valid_sig(&spec, &k[0], w0));
+            cases.push(Case { label: format!("inst:funds-{}", funds), spec, ops: vec![op(w0, &lower(0), &s, "valid")] });
+        }
+        let long = |n: usize| format!("{}{}", "{wallet}", "X".repeat(n - 8));
+        let mut templates: Vec<String> = TEMPLATES.iter().map(|s| s.to_string()).collect();
+        templates.extend([
+            "no placeholder".to_string(),
+            "".to_string(),
+            "{wallet".to_string(),
+            "wallet}".to_string(),
+            "{Wallet}".to_string(),
+            "{ wallet }".to_string(),
+            long(999),
+            long(1000),
+            long(1001),
+            format!("{}{}", "\u{e9}".repeat(496), "{wallet}"), // 1000 bytes, 504 chars
+            format!("{}{}", "\u{e9}".repeat(497), "{wallet}"), // 1002 bytes, 505 chars
+        ]);
+        for t in templates {
+            let mut spec = WorldSpec::basic(vec![lower(0)], 1);
+            spec.template = t.clone();
+            let s = hex::encode(valid_sig(&spec, &k[0], w1));
+            cases.push(Case { label: format!("inst:template-{}b", t.len()), spec, ops: vec![op(w1, &lower(0), &s, "valid")] });
+        }
+        // the list: empty, duplicates, limit extremes
+        let mut spec = WorldSpec::basic(vec![], 1);
+        cases.push(Case { label: "inst:empty-list".into(), spec: spec.clone(), ops: vec![] });
+        spec.list = vec![lower(0), lower(0), lower(1)];
+        spec.per_address_limit = u32::MAX;
+        let s = hex::encode(valid_sig(&spec, &k[0], w0));
+        cases.push(Case { label: "inst:dup-list-limit-max".into(), spec, ops: vec![op(w0, &lower(0), &s, "valid"), op(w0, &lower(0), &s, "valid")] });
+    }
+    // 2b. the recovery byte: every value (thorough) / the accepted ones, their neighbours and a sample (quick)
+    {
+        let mut vs: BTreeSet<u8> = BTreeSet::new();
+        if thorough {
+            vs.extend(0..=255u8);
+        } else {
+            for l in harvest_literals(&["packages/ethereum-verify/src/decode.rs", "packages/ethereum-verify/src/signature_verify.rs"]) {
+                for d in [l.saturating_sub(1), l, l + 1] {
+                    if d <= 255 {
+                        vs.insert(d as u8);
+                    }
+                }
+            }
+            vs.extend([0u8, 1, 2, 3, 4, 26, 27, 28, 29, 30, 31, 34, 35, 36, 37, 38, 127, 128, 155, 156, 254, 255]);
+            for _ in 0..8 {
+                vs.insert(rng.below(256) as u8);
+            }
+        }
+        for (ki, w, t) in [(0usize, w0, 0usize), (1, w1, 2), (2, w2, 3)] {
+            let mut spec = WorldSpec::basic(vec![lower(0), lower(1), lower(2)], 1_000_000);
+            spec.template = TEMPLATES[t].into();
+            spec.inst_funds = 100_000_000 + 600 * spec.airdrop_amount;
+            let base = valid_sig(&spec, &k[ki], w);
+            let mut ops = vec![];
+            for &v in &vs {
+                let mut s = base;
+                s[64] = v;
+                ops.push(op(w, &lower(ki), &hex::encode(s), &format!("v-{}", if [0, 1, 27, 28].contains(&v) { v.to_string() } else { "other".into() })));
+            }
+            // the other ECDSA signature of the same message, with both spellings of its recovery id
+            let m = malleate(&base);
+            ops.push(op(w, &lower(ki), &hex::encode(m), "malleated-twin"));
+            let mut m2 = m;
+            m2[64] = if m[64] >= 27 { m[64] - 27 } else { m[64] + 27 };
+            ops.push(op(w, &lower(ki), &hex::encode(m2), "malleated-twin"));
+            cases.push(Case { label: format!("probe:recovery-byte-k{}", ki), spec, ops });
+        }
+    }
+    // 2c. length and encoding of the signature
+    {
+        let mut spec = WorldSpec::basic(vec![lower(0)], 1_000);
+        spec.inst_funds = 100_000_000 + 100 * spec.airdrop_amount;
+        let base = valid_sig(&spec, &k[0], w0);
+        let h = hex::encode(base);
+        let mut ops = vec![];
+        let mut lens: BTreeSet<usize> = [0usize, 1, 2, 31, 32, 33, 63, 64, 65, 66, 67, 96, 128, 129, 130].into_iter().collect();
+        for l in harvest_literals(&["packages/ethereum-verify/src/decode.rs"]) {
+            lens.insert(l as usize);
+        }
+        for n in lens {
+            let mut b = base.to_vec();
+            b.resize(n, 27);
+            ops.push(op(w0, &lower(0), &hex::encode(&b), &format!("sig-len-{}", if n == 65 { "65".into() } else if n < 65 { "short".to_string() } else { "long".to_string() })));
+            if n > 0 && n != 65 {
+                // keep v as the last byte
+                let mut b2 = base[..64.min(n - 1)].to_vec();
+                b2.resize(n - 1, 0);
+                b2.push(base[64]);
+                ops.push(op(w0, &lower(0), &hex::encode(&b2), "sig-len-v-last"));
+            }
+        }
+        ops.push(op(w0, &lower(0), &h[..129], "sig-odd-hex"));
+        ops.push(op(w0, &lower(0), &format!("{}0", h), "sig-odd-hex"));
+        ops.push(op(w0, &lower(0), &h.to_uppercase(), "sig-upper-hex"));
+        ops.push(op(w0, &lower(0), &format!("0x{}", h), "sig-0x-prefixed"));
+        ops.push(op(w0, &lower(0), &format!(" {}", h), "sig-space"));
+        ops.push(op(w0, &lower(0), &format!("{}zz", &h[..128]), "sig-nonhex"));
+        ops.push(op(w0, &lower(0), &format!("{}\u{e9}", &h[..128]), "sig-nonascii"));
+        // r or s out of range / zero
+        for (lo, hi, name) in [(0usize, 32usize, "r"), (32, 64, "s")] {
+            for fill in [0u8, 0xff] {
+                let mut b = base;
+                for x in &mut b[lo..hi] {
+                    *x = fill;
+                }
+                ops.push(op(w0, &lower(0), &hex::encode(b), &format!("sig-{}-{}", name, if fill == 0 { "zero" } else { "max" })));
+            }
+        }
+        ops.push(op(w0, &lower(0), &h, "valid"));
+        cases.push(Case { label: "probe:signature-shape".into(), spec, ops });
+    }
+    // 2d. single-bit flips
+    {
+        let mut spec = WorldSpec::basic(vec![lower(0), lower(1)], 1_000);
+        spec.inst_funds = 100_000_000 + 50 * spec.airdrop_amount;
+        let base = valid_sig(&spec, &k[1], w1);
+        let mut bits: BTreeSet<usize> = BTreeSet::new();
+        if thorough {
+            bits.extend(0..520);
+        } else {
+            bits.extend([0usize, 1, 7, 8, 255, 256, 257, 263, 511, 512, 513, 514, 515, 516, 517, 518, 519]);
+            while bits.len() < 48 {
+                bits.insert(rng.below(520) as usize);
+            }
+        }
+        let mut ops = vec![];
+        for b in bits {
+            let mut s = base;
+            s[b / 8] ^= 0x80 >> (b % 8);
+            ops.push(op(w1, &lower(1), &hex::encode(s), if b < 256 { "bitflip-r" } else if b < 512 { "bitflip-s" } else { "bitflip-v" }));
+        }
+        // flips in the address and in the claimant
+        for i in [2usize, 3, 20, 41] {
+            let mut a = lower(1).into_bytes();
+            a[i] = if a[i] == b'0' { b'1' } else { b'0' };
+            ops.push(op(w1, &String::from_utf8(a).unwrap(), &hex::encode(base), "addr-digit-changed"));
+        }
+        ops.push(op(WALLETS[4], &lower(1), &hex::encode(base), "replay-other-wallet")); // differs in the last character
+        ops.push(op(w1, &lower(1), &hex::encode(base), "valid"));
+        cases.push(Case { label: "probe:bitflips".into(), spec, ops });
+    }
+    // 2e. limit boundary on every template, several addresses interleaved, total-paid accounting
+    for (ti, t) in TEMPLATES.iter().enumerate() {
+        for limit in [1u32, 2] {
+            let mut spec = WorldSpec::basic(vec![lower(0), lower(1), lower(2)], limit);
+            spec.template = t.to_string();
+            let mut ops = vec![];
+            for round in 0..(limit + 1) {
+                for (ki, w) in [(0usize, w0), (1, w1), (2, w2)] {
+                    let w = if round % 2 == 1 { WALLETS[(ki + 1) % 3] } else { w };
+                    ops.push(op(w, &lower(ki), &hex::encode(valid_sig(&spec, &k[ki], w)), if round < limit { "valid" } else { "valid-past-limit" }));
+                    // and a replay of that very signature by the next wallet
+                    let w_other = WALLETS[(ki + 2) % 3];
+                    if w_other != w {
+                        ops.push(op(w_other, &lower(ki), &hex::encode(valid_sig(&spec, &k[ki], w)), "replay-other-wallet"));
+                    }
+                }
+            }
+            cases.push(Case { label: format!("probe:limit{}-template{}", limit, ti), spec, ops });
+        }
+    }
+
+    // ---------------- 3. structured random histories (~75 % valid)
+    let nhist = if thorough { 400 } else { 40 };
+    for h in 0..nhist {
+        let limit = rng.below(4) as u32;
+        let nelig = rng.range(1, 4) as usize;
+        let mut list: Vec<String> = (0..nelig).map(|i| lower(i)).collect();
+        if rng.chance(1, 4) {
+            list.push(upper_addr(&lower(4)));
+        }
+        let mut spec = WorldSpec::basic(list.clone(), limit);
+        spec.template = rng.pick(TEMPLATES).to_string();
+        spec.airdrop_amount = *rng.pick(&[10_000_000u128, 66_000_000, 100_000_000_000_000, 12_345_678]);
+        let nops = rng.range(20, 40) as usize;
+        // sometimes not quite enough money for everything
+        let fundable = rng.range(1, nops as u64) as u128;
+        spec.inst_funds = 100_000_000;
+        spec.top_up = spec.airdrop_amount * fundable + rng.below(3) as u128 * (spec.airdrop_amount / 2);
+        if rng.chance(1, 6) {
+            spec.cwl_member_limit = rng.range(1, 3) as u32;
+        }
+        if rng.chance(1, 5) {
+            spec.cwl_initial_members = vec![WALLETS[rng.below(3) as usize].to_string()];
+        }
+        let mut ops = vec![];
+        let mut last: Option<ClaimOp> = None;
+        for _ in 0..nops {
+            let ki = rng.below(5) as usize;
+            let w = WALLETS[rng.below(WALLETS.len() as u64) as usize];
+            let addr = if ki == 4 { upper_addr(&lower(4)) } else { lower(ki) };
+            let sig = valid_sig(&spec, &k[ki], w);
+            let o = match rng.below(16) {
+                0 => {
+                    let w2 = WALLETS[(rng.below(4) as usize + 1 + WALLETS.iter().position(|x| *x == w).unwrap()) % WALLETS.len()];
+                    op(w2, &addr, &hex::encode(sig), "replay-other-wallet")
+                }
+                1 => {
+                    let kj = (ki + 1 + rng.below(4) as usize) % 5;
+                    op(w, &addr, &hex::encode(valid_sig(&spec, &k[kj], w)), "other-key")
+                }
+                2 => {
+                    let mut s = sig;
+                    let b = rng.below(520) as usize;
+                    s[b / 8] ^= 0x80 >> (b % 8);
+                    op(w, &addr, &hex::encode(s), if b < 256 { "bitflip-r" } else if b < 512 { "bitflip-s" } else { "bitflip-v" })
+                }
+                3 => match last.clone() {
+                    Some(l) => ClaimOp { tag: "repeat-previous".into(), ..l },
+                    None => op(w, &addr, &hex::encode(sig), "valid"),
+                },
+                _ => {
+                    let mut s = sig;
+                    if rng.chance(1, 3) {
+                        s[64] -= 27;
+                    }
+                    op(w, &addr, &hex::encode(s), "valid")
+                }
+            };
+            last = Some(o.clone());
+            ops.push(o);
+        }
+        cases.push(Case { label: format!("random:{}", h), spec, ops });
+    }
+
+    // ---------------- 4. malformed stream
+    {
+        let mut spec = WorldSpec::basic(vec![lower(0), "garbage".into(), "0xzz".into()], 3);
+        spec.inst_funds = 100_000_000 + 10 * spec.airdrop_amount;
+        let good = hex::encode(valid_sig(&spec, &k[0], w0));
+        let n = if thorough { 600 } else { 60 };
+        let mut ops = vec![];
+        let alphabet: Vec<char> = "0123456789abcdefABCDEFxX gz{}\u{e9}".chars().collect();
+        for _ in 0..n {
+            let rs = |rng: &mut Rng, maxlen: u64| -> String { (0..rng.below(maxlen)).map(|_| *rng.pick(&alphabet)).collect() };
+            let addr = match rng.below(4) {
+                0 => lower(0),
+                1 => "garbage".to_string(),
+                2 => "0xzz".to_string(),
+                _ => rs(&mut rng, 50),
+            };
+            let sig = match rng.below(4) {
+                0 => good.clone(),
+                1 => {
+                    let cut = rng.below(131) as usize;
+                    good[..cut].to_string()
+                }
+                2 => (0..130).map(|_| *rng.pick(&alphabet[..16])).collect(),
+                _ => rs(&mut rng, 140),
+            };
+            ops.push(op(w0, &addr, &sig, "malformed"));
+        }
+        cases.push(Case { label: "malformed-stream".into(), spec, ops });
+    }
+    cases
+}
+
+/// greedy shrink of a history: drop ops while the violation key still shows
+fn shrink(case: &Case, key: &str) -> Case {
+    let mut cur = case.clone();
+    let mut i = 0;
+    while i < cur.ops.len() {
+        let mut t = cur.clone();
+        t.ops.remove(i);
+        if run_case(&t, "x").violations.iter().any(|(k, _)| k == key) {
+            cur = t;
+        } else {
+            i += 1;
+        }
+    }
+    cur
+}
+
+pub fn run(a: &Args) {
+    let out = OutDir::new(&a.out);
+    let mut rep = Report { property: "C16".into(), tier: a.tier.clone(), seed: a.seed, ..Default::default() };
+    let cases: Vec<Case> = if let Some(p) = &a.replay {
+        #[derive(Deserialize)]
+        struct ReplayFile {
+            case: Case,
+        }
+        let txt = std::fs::read_to_string(p).expect("replay file");
+        let rf: ReplayFile = serde_json::from_str(&txt).expect("replay json");
+        vec![rf.case]
+    } else {
+        gen_cases(a)
+    };
+    let mut coq_cases = Vec::with_capacity(cases.len());
+    let mut all_defs: Vec<Vec<String>> = Vec::with_capacity(cases.len());
+    let mut distinct: BTreeSet<(String, String, String, String)> = BTreeSet::new();
+    let mut nviol = 0u64;
+    let mut seen_keys: BTreeSet<String> = BTreeSet::new();
+    for (ci, c) in cases.iter().enumerate() {
+        let o = run_case(c, &format!("w{}", ci));
+        rep.evaluations += o.steps;
+        let world_kind = c.label.split(':').next().unwrap_or("world").to_string();
+        rep.bump(&format!("world:{}:{}", world_kind, if o.built { "built" } else { "instantiate-rejected" }));
+        for (j, (tag, ok, reached)) in o.step_info.iter().enumerate() {
+            rep.bump(&format!("claim:{}:{}", tag, if *ok { "ok" } else { "err" }));
+            if *reached {
+                let p = &c.ops[j];
+                distinct.insert((serde_json::to_string(&c.spec).unwrap(), p.sender.clone(), p.eth_address.clone(), p.eth_sig.clone()));
+            }
+        }
+        for (rv, iv) in &o.crosscheck {
+            rep.bump(&format!("verifier-crosscheck:repo-{}:independent-{}", if *rv { "accepts" } else { "rejects" }, if *iv { "accepts" } else { "rejects" }));
+        }
+        for (key, what) in &o.violations {
+            nviol += 1;
+            if seen_keys.insert(key.clone()) || nviol <= 5 {
+                let small = if a.replay.is_some() { c.clone() } else { shrink(c, key) };
+                let body = format!(
+                    "{{\n \"property\": \"C16\",\n \"key\": {},\n \"violation\": {},\n \"case\": {}\n}}\n",
+                    serde_json::to_string(key).unwrap(),
+                    serde_json::to_string(what).unwrap(),
+                    serde_json::to_string(&small).unwrap()
+                );
+                let path = out.write_replay(&format!("C16-{}.json", rep.violations.len() + 1), &body);
+                rep.violations.push(Violation { key: key.clone(), what: format!("world {}: {}", c.label, what), replay: path });
+            }
+        }
+        if let Some(s) = o.sample {
+            if rep.samples.len() < 3 && (ci % 7 == 0 || a.replay.is_some()) {
+                rep.samples.push(s);
+            }
+        }
+        coq_cases.push(o.coq);
+        all_defs.push(o.defs);
+    }
+    rep.distinct_nontrivial = distinct.len() as u64;
+    rep.rule = "one evaluation = one ClaimAirdrop executed on the real contracts (or one rejected airdrop instantiate). Worlds: curated corpus, instantiate bounds (amount/fee/template/list), every recovery byte (thorough; accepted values, neighbours, harvested literals and a sample in quick), signature length/encoding shapes, single-bit flips in r/s/v, limit boundaries on every template with interleaved addresses and replays, random histories (~75 % valid), malformed stream. Non-trivial = distinct (world, sender, eth address, signature) whose address string is on the list and whose signature decodes to 65 bytes, i.e. the call reached signature verification.".into();
+    // one file per shard, each with the step definitions of its own worlds in the header
+    let shards = 6usize.min(coq_cases.len().max(1));
+    let total: usize = all_defs.iter().map(|d| d.len() + 1).sum();
+    let mut lo = 0usize;
+    for sh in 0..shards {
+        // balance by number of calls, not by number of worlds
+        let mut hi = lo;
+        let mut acc = 0usize;
+        while hi < coq_cases.len() && (acc < (total + shards - 1) / shards || sh + 1 == shards) {
+            acc += all_defs[hi].len() + 1;
+            hi += 1;
+        }
+        if lo >= hi {
+            break;
+        }
+        // one physical line, so that `check` finds a failing case's text by its line number
+        let mut header = String::from("From Coq Require Import Uint63. From LP Require Import Airdrop C16Corr. Local Open Scope N_scope. ");
+        for d in &all_defs[lo..hi] {
+            for l in d {
+                header.push_str(l);
+                header.push(' ');
+            }
+        }
+        out.write_cases(&format!("C16_{}", sh), header.trim_end(), "c16_case", "c16_check", &coq_cases[lo..hi], 1, &mut rep);
+        lo = hi;
+    }
+    out.finish(&rep);
+    println!("C16 harness: {} worlds, {} calls, {} monitor violations", cases.len(), rep.evaluations, nviol);
 }
